@@ -102,7 +102,7 @@ def compare(ctx, case, x, y, pl, res):
 
 def run(ctx):
     ctx.rule = ('exponents of points {0 (infinity), 1, 2, 3, r-1}, field elements / scalars {0, 1, 2, r-1, r, r+1, -1 (int)}; every instruction (ADD, NEG, MUL over g1/g2/fr, MUL with '
-                'int and nat, INT) on every operand tuple; pairing lists of up to 3 pairs (also with a repeated pair). Leg A: group/field laws on exponents modulo r (identity, inverse, commutativity, '
+                'int and nat, INT) on every operand tuple; pairing lists of up to 6 (thorough 9) pairs (also with a repeated pair, with pairs that share a G2 point and cancel, true and false products). Leg A: group/field laws on exponents modulo r (identity, inverse, commutativity, '
                 'associativity, distributivity, r.P = infinity, bilinearity pattern). Leg B: exponents become real points (py_ecc scalar multiplication, own uncompressed '
                 'serialiser incl. the infinity encoding) and the pytezos instruction must return the serialisation of the expected point / field element / verdict')
     ctx.assumptions = ['py_ecc is the only BLS12-381 implementation available (pytezos uses it too): scalar multiplication of the generator by py_ecc is trusted; the serialiser is independent',
@@ -113,8 +113,12 @@ def run(ctx):
     nats = [0, 1, R, R + 1]
     pairs = [((1, 1),), ((0, 5),), ((1, 1), (1, R - 1)), ((2, 3), (R - 6, 1)), ((2, 3), (1, 1)), ((3, 0), (0, 4)),
              ((1, 1), (1, 1), (R - 2, 1)), ((1, 1), (1, 1), (R - 1, 1))]      # the same pair twice: the product runs over the list, not over the set of pairs
+    # longer lists (an implementation may fold them pairwise or group them by a shared point): the product still runs over every pair, in any arrangement
+    pairs += [((1, 1), (2, 1), (3, 1), (4, 1), (R - 10, 1)), ((1, 1), (R - 1, 1), (2, 1), (R - 2, 1), (5, 1)),
+              ((1, 2), (R - 1, 2), (2, 3), (3, 2), (R - 2, 3), (R - 3, 2)), ((1, 2), (R - 1, 2), (2, 3), (3, 2), (R - 2, 3))]
     if not ctx.quick:
-        pairs += [((5, 7), (7, R - 5)), ((1, 2), (2, 1)), ()]
+        pairs += [((5, 7), (7, R - 5)), ((1, 2), (2, 1)), (), tuple((k, 1) for k in range(1, 7)) + ((R - 21, 1),), tuple((k, k) for k in range(1, 9)) + ((R - 204, 1),),
+                  ((1, 2), (R - 1, 2), (2, 3), (3, 2)), ((2, 5), (3, 7), (R - 2, 5), (4, 7), (R - 7, 7), (1, 1), (R - 1, 1))]
     vals = {'pt': pts, 'fr': frs, 'int': ints, 'nat': nats, 'zero': [0]}
     gen = {'MichBlsMC': MC % (to_tla(limb(R)), to_tla(set(CASES)), 'CASE ' + '\n   [] '.join('kind = "%s" -> %s' % (k, to_tla({limb(v) for v in vs})) for k, vs in vals.items()),
                                to_tla({tuple((limb(a), limb(b)) for a, b in p) for p in pairs}))}
@@ -157,6 +161,6 @@ META = {
              'exponent products vanishes modulo r; arithmetic is exact on limb integers. TLC checks the group and field laws on every case of the pool (including infinity, r-1, r, '
              'r+1 and negative scalars) and every case is replayed on real curve points through the pytezos instructions.'),
     'design_ref': 'DESIGN.md section 5 C21',
-    'note': 'Trusted: py_ecc scalar multiplication (no second BLS implementation in the sandbox), own serialiser, BigInt.tla. Bounds: 5 point exponents, 4-6 field elements, 5-9 integers, 8-11 pairing lists of <= 3 pairs.',
+    'note': 'Trusted: py_ecc scalar multiplication (no second BLS implementation in the sandbox), own serialiser, BigInt.tla. Bounds: 5 point exponents, 4-6 field elements, 5-9 integers, 12-19 pairing lists of <= 6 (9) pairs.',
     'technique': 'TLA+ exponent model + TLC law checking; replay on real curve points through the pytezos BLS instructions',
 }
